@@ -1,3 +1,616 @@
 import GnpyModel
-/- Property theorems for C14 (only the property theorems and their non-vacuity examples live here;
-   helper lemmas go to GnpyProofs/Lemmas). -/
+import GnpyProofs.Lemmas.SlotsStep
+import GnpyProofs.Lemmas.SlotsHistory
+import GnpyProofs.Lemmas.SlotsOrder
+/- Property theorems for C14 — spectrum assignment never double-books a slot and honours what the user fixed.
+   Model: GnpyModel/Slots.lean (`step` = one iteration of `pth_assign_spectrum`, `run` = a history of calls).
+   Helper lemmas: GnpyProofs/Lemmas/{PyList,Slots,SlotsStep}.lean. -/
+namespace Gnpy.Slots
+open Gnpy.Py
+
+/-- **A blocked (or skipped) request changes no spectrum state** – neither the maps nor the service bookkeeping of any
+    OMS; holds for every state, well formed or not. -/
+theorem step_blocked_unchanged (pol : Policy) (s s' : List Oms) (r : Request) (o : Outcome)
+    (h : step pol s r = .ok (s', o)) (ho : ∀ nm, o ≠ Outcome.accepted nm) : s' = s := by
+  unfold step at h
+  split at h
+  · simp only [pure, Except.pure, Except.ok.injEq, Prod.mk.injEq] at h
+    exact h.1.symm
+  · simp only [bind, Except.bind] at h
+    cases h1 : slotsVsBandwidth r.pathBandwidth r.spacing r.bitRate with
+    | error e => rw [h1] at h; cases h
+    | ok nr =>
+      rw [h1] at h
+      simp only at h
+      cases h2 : slotsVsBandwidth r.bitRate r.spacing r.bitRate with
+      | error e => rw [h2] at h; cases h
+      | ok pc =>
+        rw [h2] at h
+        simp only at h
+        cases h3 : reservedShort r.entries pc.2 nr.1 with
+        | error e => rw [h3] at h; cases h
+        | ok blk =>
+          rw [h3] at h
+          cases blk with
+          | true =>
+            simp only [if_true, pure, Except.pure, Except.ok.injEq, Prod.mk.injEq] at h
+            exact h.1.symm
+          | false =>
+            simp only [Bool.false_eq_true, if_false] at h
+            cases h4 : computeNM nr.2 r.entries r.pathOms s pc.2 pol with
+            | error e => rw [h4] at h; cases h
+            | ok sr =>
+              rw [h4] at h
+              simp only at h
+              split at h
+              · simp only [pure, Except.pure, Except.ok.injEq, Prod.mk.injEq] at h
+                exact h.1.symm
+              · cases h5 : applyPath sr.1 r.id nr.1 r.pathOms s with
+                | error e => rw [h5] at h; cases h
+                | ok s1 =>
+                  rw [h5] at h
+                  simp only [pure, Except.pure, Except.ok.injEq, Prod.mk.injEq] at h
+                  exact absurd h.2.symm (ho _)
+
+/-- **Every granted slot range was free on every OMS of the route (both directions), inside the guard-band limits and
+    the bounds of each of those maps, and has positive width.** -/
+theorem step_accept_free (pol : Policy) (s s' : List Oms) (r : Request) (out : List (Int × Int)) (hs : StateWF s)
+    (hnd : r.pathOms.Nodup) (h : step pol s r = .ok (s', Outcome.accepted out)) :
+    ∀ nm ∈ out, 0 < nm.2 ∧ ∀ k ∈ r.pathOms, ∃ o, s[k]? = some o ∧ RangeOK o.bm nm.1 nm.2 ∧
+      o.bm.nMin < nm.1 - nm.2 ∧ nm.1 + nm.2 - 1 ≤ o.bm.nMax := by
+  obtain ⟨nbWl, requiredM, pcm, t, sel, _, a1, a2, a3, _, _, _⟩ := step_accepted_spec pol s s' r out hs hnd h
+  obtain ⟨_, hwf, c1, c2, c3⟩ := aggregate_spec s hs _ t a1
+  obtain ⟨_, b2, _, _⟩ := nmLoop_spec pcm pol _ t requiredM sel _ hwf a2
+  intro nm hnm
+  obtain ⟨d1, ⟨d2, d3, d4⟩, d5, d6⟩ := b2 nm (a3.mem_iff.1 hnm)
+  refine ⟨d1, ?_⟩
+  intro k hk
+  obtain ⟨o, ho⟩ := c1 k hk
+  obtain ⟨e1, e2, e3, e4⟩ := c2 k hk o ho
+  obtain ⟨g1, g2⟩ := hs.guard o (List.mem_of_getElem? ho)
+  refine ⟨o, ho, ⟨by omega, by omega, ?_⟩, by omega, by omega⟩
+  intro x hx1 hx2
+  exact (c3 x).1 (d4 x hx1 hx2) k hk o ho
+
+/-- the slot ranges given to one request do not overlap each other -/
+theorem step_slots_disjoint (pol : Policy) (s s' : List Oms) (r : Request) (out : List (Int × Int)) (hs : StateWF s)
+    (hnd : r.pathOms.Nodup) (h : step pol s r = .ok (s', Outcome.accepted out)) : out.Pairwise Disj := by
+  obtain ⟨nbWl, requiredM, pcm, t, sel, _, a1, a2, a3, _, _, _⟩ := step_accepted_spec pol s s' r out hs hnd h
+  obtain ⟨_, hwf, _, _, _⟩ := aggregate_spec s hs _ t a1
+  obtain ⟨_, _, b3, _⟩ := nmLoop_spec pcm pol _ t requiredM sel _ hwf a2
+  exact a3.symm.pairwise b3 (fun hh => Disj.symm hh)
+
+/-- **The new state is the old one with exactly `[N−M, N+M−1]` of every granted pair marked occupied on exactly the
+    OMS of the route** (`Oms.served`: same marks on every OMS of the route — "identical on every OMS of the path");
+    every other OMS is untouched. -/
+theorem step_marks_exactly (pol : Policy) (s s' : List Oms) (r : Request) (out : List (Int × Int)) (hs : StateWF s)
+    (hnd : r.pathOms.Nodup) (h : step pol s r = .ok (s', Outcome.accepted out)) :
+    s'.length = s.length ∧ (∀ k, k ∉ r.pathOms → s'[k]? = s[k]?) ∧
+    ∃ nb, ∀ k ∈ r.pathOms, ∃ o, s[k]? = some o ∧ s'[k]? = some (o.served out r.id nb) := by
+  obtain ⟨nbWl, _, _, _, _, _, _, _, _, _, _, a7⟩ := step_accepted_spec pol s s' r out hs hnd h
+  obtain ⟨b1, b2, b3⟩ := applyPath_spec out r.id nbWl _ s s' hnd hs.wf a7
+  refine ⟨b1, b2, nbWl, ?_⟩
+  intro k hk
+  obtain ⟨o, h1, h2, _⟩ := b3 k hk
+  exact ⟨o, h1, h2⟩
+
+/-- what `served` means slot by slot: a slot covered by a granted range becomes occupied, every other slot keeps its
+    value (in particular unusable stays unusable, nothing is ever freed) -/
+theorem served_cellAt (o : Oms) (sel : List (Int × Int)) (id : String) (nb : Int) (x : Int) :
+    (o.served sel id nb).bm.cellAt x = (o.bm.cellAt x).map (fun c => if covers sel x then Cell.occupied else c) :=
+  Bitmap.cellAt_markAll sel o.bm x
+
+/-- **same_on_all_oms**: the assignment is identical on every OMS of the route: the cells that change are given by the
+    one list `out`, whatever the OMS -/
+theorem same_on_all_oms (pol : Policy) (s s' : List Oms) (r : Request) (out : List (Int × Int)) (hs : StateWF s)
+    (hnd : r.pathOms.Nodup) (h : step pol s r = .ok (s', Outcome.accepted out)) :
+    ∀ k ∈ r.pathOms, ∃ o o', s[k]? = some o ∧ s'[k]? = some o' ∧
+      ∀ x, o'.bm.cellAt x = (o.bm.cellAt x).map (fun c => if covers out x then Cell.occupied else c) := by
+  obtain ⟨_, _, nb, h3⟩ := step_marks_exactly pol s s' r out hs hnd h
+  intro k hk
+  obtain ⟨o, h1, h2⟩ := h3 k hk
+  exact ⟨o, _, h1, h2, fun x => served_cellAt o out r.id nb x⟩
+
+/-- **enough_slots**: the granted widths add up to at least the slots needed for the requested bandwidth
+    (`ceil(spacing / 12.5 GHz) · ceil(path_bandwidth / bit_rate)`) -/
+theorem enough_slots (pol : Policy) (s s' : List Oms) (r : Request) (out : List (Int × Int)) (hs : StateWF s)
+    (hnd : r.pathOms.Nodup) (h : step pol s r = .ok (s', Outcome.accepted out)) :
+    r.bitRate ≠ 0 ∧
+    ceilDiv r.spacing slotWidthHz * ceilDiv r.pathBandwidth r.bitRate ≤ sumInt (out.map (·.2)) := by
+  obtain ⟨nbWl, requiredM, _, _, _, a0, _, _, _, _, a6, _⟩ := step_accepted_spec pol s s' r out hs hnd h
+  unfold slotsVsBandwidth at a0
+  split at a0
+  · cases a0
+  · next hb =>
+    simp only [pure, Except.pure, Except.ok.injEq, Prod.mk.injEq] at a0
+    refine ⟨hb, ?_⟩
+    rw [a0.2]; exact a6
+
+
+/-- a well-formed state stays well formed -/
+theorem step_preserves_wf (pol : Policy) (s s' : List Oms) (r : Request) (o : Outcome) (hs : StateWF s)
+    (hnd : r.pathOms.Nodup) (h : step pol s r = .ok (s', o)) : StateWF s' := by
+  cases o with
+  | skipped => rw [step_blocked_unchanged pol s s' r _ h (by intro nm hh; cases hh)]; exact hs
+  | blocked reason => rw [step_blocked_unchanged pol s s' r _ h (by intro nm hh; cases hh)]; exact hs
+  | accepted out =>
+    obtain ⟨_, m2, nb, m3⟩ := step_marks_exactly pol s s' r out hs hnd h
+    exact StateWF_served s s' hs r.pathOms out r.id nb m2 m3
+
+/-- The invariant of every history of `pth_assign_spectrum` calls (induction over ANY request list). -/
+theorem run_spec (pol : Policy) : ∀ (rs : List Request) (s s' : List Oms) (os : List Outcome), StateWF s →
+    (∀ r ∈ rs, r.pathOms.Nodup) → run pol s rs = .ok (s', os) →
+    StateWF s' ∧ s'.length = s.length ∧
+    (∀ g ∈ grants rs os, 0 < g.m ∧ ∀ k ∈ g.path, ∃ o, s[k]? = some o ∧ RangeOK o.bm g.n g.m) ∧
+    (grants rs os).Pairwise Grant.Compatible ∧
+    (∀ (k : Nat) (o : Oms), s[k]? = some o → ∃ o' : Oms, s'[k]? = some o' ∧ ∀ x : Int, o'.bm.cellAt x =
+      (o.bm.cellAt x).map (fun c => if (grants rs os).any (fun g => g.covers k x) then Cell.occupied else c)) := by
+  intro rs
+  induction rs with
+  | nil =>
+    intro s s' os hs _ h
+    have : s' = s ∧ os = [] := by
+      simp only [run, pure, Except.pure, Except.ok.injEq, Prod.mk.injEq] at h
+      exact ⟨h.1.symm, h.2.symm⟩
+    obtain ⟨rfl, rfl⟩ := this
+    refine ⟨hs, rfl, by simp [grants], by simp [grants], ?_⟩
+    intro k o ho
+    refine ⟨o, ho, fun x => ?_⟩
+    cases o.bm.cellAt x <;> simp [grants]
+  | cons r rs ih =>
+    intro s s' os hs hnd h
+    obtain ⟨s1, o, os', h1, h2, rfl⟩ := run_cons pol s s' r rs os h
+    have hndr : r.pathOms.Nodup := hnd r List.mem_cons_self
+    have hs1 : StateWF s1 := step_preserves_wf pol s s1 r o hs hndr h1
+    obtain ⟨i1, i2, i4, i5, i6⟩ := ih s1 s' os' hs1 (fun q hq => hnd q (List.mem_cons_of_mem _ hq)) h2
+    by_cases hacc : ∃ out, o = Outcome.accepted out
+    · obtain ⟨out, rfl⟩ := hacc
+      have F := step_accept_free pol s s1 r out hs hndr h1
+      have Dj := step_slots_disjoint pol s s1 r out hs hndr h1
+      obtain ⟨m1, m2, nb, m3⟩ := step_marks_exactly pol s s1 r out hs hndr h1
+      have hpos : ∀ nm ∈ out, 0 < nm.2 := fun nm hnm => (F nm hnm).1
+      -- a later grant, seen from the state before this request
+      have later : ∀ g ∈ grants rs os', 0 < g.m ∧ (∀ k ∈ g.path, ∃ o, s[k]? = some o ∧ RangeOK o.bm g.n g.m) ∧
+          ((∃ k, k ∈ r.pathOms ∧ k ∈ g.path) → ∀ nm ∈ out, Disj nm (g.n, g.m)) := by
+        intro g hg
+        obtain ⟨gm, gk⟩ := i4 g hg
+        refine ⟨gm, ?_, ?_⟩
+        · intro k hk
+          obtain ⟨o1, q1, q2⟩ := gk k hk
+          by_cases hp : k ∈ r.pathOms
+          · obtain ⟨o0, p1, p2⟩ := m3 k hp
+            rw [p2] at q1; cases q1
+            exact ⟨o0, p1, (RangeOK_markAll o0.bm out g.n g.m gm hpos q2).1⟩
+          · rw [m2 k hp] at q1
+            exact ⟨o1, q1, q2⟩
+        · rintro ⟨k, hp, hk⟩ nm hnm
+          obtain ⟨o1, q1, q2⟩ := gk k hk
+          obtain ⟨o0, p1, p2⟩ := m3 k hp
+          rw [p2] at q1; cases q1
+          exact (RangeOK_markAll o0.bm out g.n g.m gm hpos q2).2 nm hnm
+      have hgr : grants (r :: rs) (Outcome.accepted out :: os') =
+          out.map (fun p => (⟨r.pathOms, p.1, p.2⟩ : Grant)) ++ grants rs os' := rfl
+      refine ⟨i1, by omega, ?_, ?_, ?_⟩
+      · intro g hg
+        rw [hgr] at hg
+        rcases List.mem_append.1 hg with hg | hg
+        · obtain ⟨nm, hnm, rfl⟩ := List.mem_map.1 hg
+          obtain ⟨f1, f2⟩ := F nm hnm
+          refine ⟨f1, fun k hk => ?_⟩
+          obtain ⟨o0, p1, p2, _⟩ := f2 k hk
+          exact ⟨o0, p1, p2⟩
+        · exact ⟨(later g hg).1, (later g hg).2.1⟩
+      · rw [hgr, List.pairwise_append]
+        refine ⟨?_, i5, ?_⟩
+        · rw [List.pairwise_map]
+          refine List.Pairwise.imp ?_ Dj
+          intro a b hd _
+          exact hd
+        · intro g1 hg1 g2 hg2
+          obtain ⟨nm, hnm, rfl⟩ := List.mem_map.1 hg1
+          intro hshare
+          exact (later g2 hg2).2.2 hshare nm hnm
+      · intro k o0 ho0
+        by_cases hp : k ∈ r.pathOms
+        · obtain ⟨o0', p1, p2⟩ := m3 k hp
+          rw [ho0] at p1; cases p1
+          obtain ⟨o', q1, q2⟩ := i6 k _ p2
+          refine ⟨o', q1, fun x => ?_⟩
+          rw [q2 x, served_cellAt, hgr, List.any_append, any_grantsOf_accepted]
+          cases o0.bm.cellAt x with
+          | none => rfl
+          | some c =>
+            simp only [Option.map_some, hp, decide_true, Bool.true_and]
+            cases covers out x <;> cases (grants rs os').any (fun g => g.covers k x) <;> simp
+        · have p2 : s1[k]? = some o0 := by rw [m2 k hp]; exact ho0
+          obtain ⟨o', q1, q2⟩ := i6 k _ p2
+          refine ⟨o', q1, fun x => ?_⟩
+          rw [q2 x, hgr, List.any_append, any_grantsOf_accepted]
+          simp [hp]
+    · have hno : ∀ nm, o ≠ Outcome.accepted nm := fun nm hh => hacc ⟨nm, hh⟩
+      have hsame : s1 = s := step_blocked_unchanged pol s s1 r o h1 hno
+      subst hsame
+      have hgr : grants (r :: rs) (o :: os') = grants rs os' := by
+        cases o with
+        | skipped => rfl
+        | blocked reason => rfl
+        | accepted out => exact absurd rfl (hno out)
+      rw [hgr]
+      exact ⟨i1, i2, i4, i5, i6⟩
+
+/-- **history_no_overlap.** Across any sequence of requests (any mix of fixed/free N and M, blocked or accepted, one or
+    both directions, any policy) two granted slot ranges that share an OMS never share a slot; and every granted range
+    was free in the initial state on each of its OMS, inside their guard-band limits (so it never sits on a slot that
+    was occupied or unusable before the history started). -/
+theorem history_no_overlap (pol : Policy) (rs : List Request) (s s' : List Oms) (os : List Outcome) (hs : StateWF s)
+    (hnd : ∀ r ∈ rs, r.pathOms.Nodup) (h : run pol s rs = .ok (s', os)) :
+    (grants rs os).Pairwise Grant.Compatible ∧
+    ∀ g ∈ grants rs os, 0 < g.m ∧ ∀ k ∈ g.path, ∃ o, s[k]? = some o ∧ RangeOK o.bm g.n g.m :=
+  ⟨(run_spec pol rs s s' os hs hnd h).2.2.2.1, (run_spec pol rs s s' os hs hnd h).2.2.1⟩
+
+/-- **occupancy_is_union.** After any history the map of every OMS is the initial map with exactly the slots of the
+    accepted grants that cross this OMS turned to occupied: nothing else changes, nothing is freed, unusable stays
+    unusable. -/
+theorem occupancy_is_union (pol : Policy) (rs : List Request) (s s' : List Oms) (os : List Outcome) (hs : StateWF s)
+    (hnd : ∀ r ∈ rs, r.pathOms.Nodup) (h : run pol s rs = .ok (s', os)) :
+    s'.length = s.length ∧ ∀ (k : Nat) (o : Oms), s[k]? = some o → ∃ o' : Oms, s'[k]? = some o' ∧ ∀ x : Int, o'.bm.cellAt x =
+      (o.bm.cellAt x).map (fun c => if (grants rs os).any (fun g => g.covers k x) then Cell.occupied else c) :=
+  ⟨(run_spec pol rs s s' os hs hnd h).2.1, (run_spec pol rs s s' os hs hnd h).2.2.2.2⟩
+
+
+/-- a feasible position for a slot of half-width `m` centred on `n'` on a route, measured as the test bitmap of
+    `compute_n_m` measures it: free on every OMS of the route and inside the guard band counted from the first/last
+    slot index of the maps -/
+def Feasible (s : List Oms) (path : List Nat) (n' m : Int) : Prop :=
+  ∀ k ∈ path, ∀ o, s[k]? = some o → o.bm.aggIdxMin ≤ n' - m ∧ n' + m - 1 ≤ o.bm.aggIdxMax ∧
+    ∀ x : Int, n' - m ≤ x → x ≤ n' + m - 1 → o.bm.cellAt x = some Cell.free
+
+/-- a one-entry request with a free N that is accepted got its centre from `spectrum_selection` on the test bitmap -/
+theorem single_free_entry_selection (pol : Policy) (s s' : List Oms) (r : Request) (e : Entry) (n m : Int)
+    (hs : StateWF s) (hnd : r.pathOms.Nodup) (he : r.entries = [e]) (hn : e.n = none)
+    (h : step pol s r = .ok (s', Outcome.accepted [(n, m)])) :
+    ∃ t, aggregate r.pathOms s = .ok t ∧ 0 < m ∧ spectrumSelection t m pol = .ok (some n) := by
+  obtain ⟨nbWl, requiredM, pcm, t, sel, _, a1, a2, a3, _, _, _⟩ := step_accepted_spec _ s s' r _ hs hnd h
+  obtain ⟨hne, hwf, c1, c2, c3⟩ := aggregate_spec s hs _ t a1
+  have hsel : sel = [(n, m)] := (List.Perm.singleton_eq a3).symm
+  subst hsel
+  rw [he] at a2
+  have hord : (orderSlots [e]).map (·.2) = [e] := rfl
+  rw [hord] at a2
+  simp only [nmLoop, bind, Except.bind] at a2
+  cases hsl : selectOne t e requiredM pcm pol with
+  | error err => rw [hsl] at a2; cases a2
+  | ok v =>
+    rw [hsl] at a2
+    cases v with
+    | none => simp [pure, Except.pure] at a2
+    | some nm =>
+      simp only at a2
+      cases has : assignSpectrum t nm.1 nm.2 with
+      | error err => rw [has] at a2; cases a2
+      | ok t' =>
+        rw [has] at a2
+        simp only [pure, Except.pure, Except.ok.injEq, Prod.mk.injEq, List.cons.injEq, and_true] at a2
+        have hnm : nm = (n, m) := Prod.ext a2.1.1 a2.1.2
+        subst hnm
+        obtain ⟨hm, _⟩ := assignSpectrum_ok t t' _ _ hwf has
+        refine ⟨t, a1, hm, ?_⟩
+        unfold selectOne at hsl
+        rw [hn] at hsl
+        cases hem : e.m with
+        | none =>
+          rw [hem] at hsl
+          simp only at hsl
+          split at hsl
+          · cases hsl
+          · simp only [bind, Except.bind] at hsl
+            cases hd : spectrumSelection t requiredM pol with
+            | error err => rw [hd] at hsl; cases hsl
+            | ok o =>
+              rw [hd] at hsl
+              cases o with
+              | none => cases hsl
+              | some n0 =>
+                have : n0 = n ∧ requiredM = m := by simpa [pure, Except.pure] using hsl
+                obtain ⟨rfl, rfl⟩ := this
+                exact hd
+        | some m0 =>
+          rw [hem] at hsl
+          simp only [bind, Except.bind] at hsl
+          cases hd : spectrumSelection t m0 pol with
+          | error err => rw [hd] at hsl; cases hsl
+          | ok o =>
+            rw [hd] at hsl
+            cases o with
+            | none => cases hsl
+            | some n0 =>
+              have : n0 = n ∧ m0 = m := by simpa [pure, Except.pure] using hsl
+              obtain ⟨rfl, rfl⟩ := this
+              exact hd
+
+theorem feasible_rangeOK (s : List Oms) (hs : StateWF s) (path : List Nat) (t : Bitmap) (ha : aggregate path s = .ok t)
+    (n' m : Int) (hfeas : Feasible s path n' m) : RangeOK t n' m := by
+  obtain ⟨hne, hwf, c1, c2, c3⟩ := aggregate_spec s hs _ t ha
+  obtain ⟨k, hk⟩ := List.exists_mem_of_ne_nil _ hne
+  obtain ⟨o, ho⟩ := c1 k hk
+  obtain ⟨_, _, e3, e4⟩ := c2 k hk o ho
+  obtain ⟨f1, f2, _⟩ := hfeas k hk o ho
+  refine ⟨by omega, by omega, ?_⟩
+  intro x hx1 hx2
+  exact (c3 x).2 (fun k' hk' o' ho' => (hfeas k' hk' o' ho').2.2 x hx1 hx2)
+
+/-- **first_fit_lowest.** With the first-fit policy a request with one slot and a free N (M fixed or free) is placed
+    at the lowest feasible position: no centre below the granted one is feasible on the route. -/
+theorem first_fit_lowest (s s' : List Oms) (r : Request) (e : Entry) (n m : Int) (hs : StateWF s)
+    (hnd : r.pathOms.Nodup) (he : r.entries = [e]) (hn : e.n = none)
+    (h : step Policy.firstFit s r = .ok (s', Outcome.accepted [(n, m)])) :
+    ∀ n' : Int, n' < n → ¬ Feasible s r.pathOms n' m := by
+  obtain ⟨t, ha, hm, hsp⟩ := single_free_entry_selection _ s s' r e n m hs hnd he hn h
+  obtain ⟨_, hwf, _, _, _⟩ := aggregate_spec s hs _ t ha
+  intro n' hlt hfeas
+  exact spectrumSelection_first t hwf m hm n hsp n' hlt (feasible_rangeOK s hs _ t ha n' m hfeas)
+
+/-- with the last-fit policy the same request is placed at the highest feasible position -/
+theorem last_fit_highest (s s' : List Oms) (r : Request) (e : Entry) (n m : Int) (hs : StateWF s)
+    (hnd : r.pathOms.Nodup) (he : r.entries = [e]) (hn : e.n = none)
+    (h : step Policy.lastFit s r = .ok (s', Outcome.accepted [(n, m)])) :
+    ∀ n' : Int, n < n' → ¬ Feasible s r.pathOms n' m := by
+  obtain ⟨t, ha, hm, hsp⟩ := single_free_entry_selection _ s s' r e n m hs hnd he hn h
+  obtain ⟨_, hwf, _, _, _⟩ := aggregate_spec s hs _ t ha
+  intro n' hlt hfeas
+  exact spectrumSelection_last t hwf m hm n hsp n' hlt (feasible_rangeOK s hs _ t ha n' m hfeas)
+
+theorem forall₂_mem_right {α β : Type} {R : α → β → Prop} {l1 : List α} {l2 : List β} (h : List.Forall₂ R l1 l2)
+    (b : β) (hb : b ∈ l2) : ∃ a ∈ l1, R a b := by
+  induction h with
+  | nil => cases hb
+  | cons hr _ ih =>
+    rcases List.mem_cons.1 hb with rfl | hb
+    · exact ⟨_, List.mem_cons_self, hr⟩
+    · obtain ⟨a, ha, hab⟩ := ih hb
+      exact ⟨a, List.mem_cons_of_mem _ ha, hab⟩
+
+/-- membership form of `user_fixed_honoured` (below): every returned (N, M) pair stems from an entry of the request and
+    carries that entry's fixed N / M unchanged, and no more pairs than entries are returned -/
+theorem user_fixed_membership (pol : Policy) (s s' : List Oms) (r : Request) (out : List (Int × Int))
+    (hs : StateWF s) (hnd : r.pathOms.Nodup) (h : step pol s r = .ok (s', Outcome.accepted out)) :
+    out.length ≤ r.entries.length ∧ ∀ nm ∈ out, ∃ e ∈ r.entries, Honoured e nm := by
+  obtain ⟨nbWl, requiredM, pcm, t, sel, _, a1, a2, a3, _, _, _⟩ := step_accepted_spec pol s s' r out hs hnd h
+  obtain ⟨_, hwf, _, _, _⟩ := aggregate_spec s hs _ t a1
+  obtain ⟨_, _, _, b4⟩ := nmLoop_spec pcm pol _ t requiredM sel _ hwf a2
+  have hlen := nmLoop_length pcm pol _ t requiredM sel _ hwf a2
+  rw [List.length_map, orderSlots_length] at hlen
+  refine ⟨by rw [a3.length_eq]; exact hlen, ?_⟩
+  intro nm hnm
+  obtain ⟨e, he, hon⟩ := forall₂_mem_right b4 nm (a3.mem_iff.1 hnm)
+  refine ⟨e, ?_, hon⟩
+  have he' : e ∈ (orderSlots r.entries).map (·.2) := List.mem_of_mem_take he
+  obtain ⟨q, hq, rfl⟩ := List.mem_map.1 he'
+  have hq' : q ∈ enumerate r.entries := (sorted_perm _ _).mem_iff.1 hq
+  exact List.mem_of_getElem? (mem_enumerate _ _ hq')
+
+theorem forall₂_getElem? {α β : Type} {R : α → β → Prop} {l1 : List α} {l2 : List β} (h : List.Forall₂ R l1 l2) :
+    ∀ (p : Nat) (a : α) (b : β), l1[p]? = some a → l2[p]? = some b → R a b := by
+  induction h with
+  | nil => intro p a b ha; simp at ha
+  | cons hr _ ih =>
+    intro p a b ha hb
+    cases p with
+    | zero =>
+      simp only [List.getElem?_cons_zero, Option.some.injEq] at ha hb
+      subst ha hb; exact hr
+    | succ p =>
+      simp only [List.getElem?_cons_succ] at ha hb
+      exact ih p a b ha hb
+
+/-- **user_fixed_honoured.** For an accepted request the returned (N, M) pairs are, in request order, the entries that
+    were served: position `k` of the request either is left unused (`g k = none`, intended when the demand is already
+    served) or receives a pair that carries the user's N (resp. M) of that very entry unchanged. A request whose fixed
+    values cannot be used is blocked instead (`step_blocked_unchanged`). -/
+theorem user_fixed_honoured (pol : Policy) (s s' : List Oms) (r : Request) (out : List (Int × Int))
+    (hs : StateWF s) (hnd : r.pathOms.Nodup) (h : step pol s r = .ok (s', Outcome.accepted out)) :
+    ∃ g : Nat → Option (Int × Int), out = (List.range r.entries.length).filterMap g ∧
+      ∀ (k : Nat) (nm : Int × Int), g k = some nm → ∃ e, r.entries[k]? = some e ∧ Honoured e nm := by
+  obtain ⟨nbWl, requiredM, pcm, t, sel, _, a1, a2, a3, a4, _, _⟩ := step_accepted_spec pol s s' r out hs hnd h
+  obtain ⟨_, hwf, _, _, _⟩ := aggregate_spec s hs _ t a1
+  obtain ⟨_, _, _, b4⟩ := nmLoop_spec pcm pol _ t requiredM sel _ hwf a2
+  have hlen := nmLoop_length pcm pol _ t requiredM sel _ hwf a2
+  rw [List.length_map, orderSlots_length] at hlen
+  have hol : ((orderSlots r.entries).map (·.1)).length = r.entries.length := by
+    rw [List.length_map, orderSlots_length]
+  have hperm : ((orderSlots r.entries).map (·.1)).Perm (List.range ((orderSlots r.entries).map (·.1)).length) := by
+    rw [hol, ← enumerate_map_fst]
+    exact (sorted_perm _ _).map _
+  obtain ⟨g, g1, g2⟩ := restoreOrder_positional
+    (sel.map some ++ List.replicate ((orderSlots r.entries).length - sel.length) none) _ hperm
+  rw [hol] at g1
+  refine ⟨g, by rw [a4]; exact g1, ?_⟩
+  intro k nm hk
+  obtain ⟨p, hp1, hp2⟩ := g2 k nm hk
+  -- the element at sorted position p is one of the selected pairs
+  have hpl : p < sel.length := by
+    rcases Nat.lt_or_ge p sel.length with hh | hh
+    · exact hh
+    · rw [List.getElem?_append_right (by simpa using hh), List.getElem?_replicate] at hp2
+      split at hp2 <;> cases hp2
+  have hselp : sel[p]? = some nm := by
+    rw [List.getElem?_append_left (by simpa using hpl), List.getElem?_map] at hp2
+    cases hsp : sel[p]? with
+    | none => rw [hsp] at hp2; cases hp2
+    | some v => rw [hsp] at hp2; simp at hp2; rw [hp2]
+  -- the entry at sorted position p is entry k of the request
+  rw [List.getElem?_map] at hp1
+  cases hq : (orderSlots r.entries)[p]? with
+  | none => rw [hq] at hp1; cases hp1
+  | some q =>
+    rw [hq] at hp1
+    have hq1 : q.1 = k := by simpa using hp1
+    have hqm : q ∈ enumerate r.entries := (sorted_perm _ _).mem_iff.1 (List.mem_of_getElem? hq)
+    have hent := mem_enumerate r.entries q hqm
+    refine ⟨q.2, by rw [← hq1]; exact hent, ?_⟩
+    apply forall₂_getElem? b4 p q.2 nm _ hselp
+    rw [List.getElem?_take]
+    simp only [hpl, if_true, List.getElem?_map, hq]
+    rfl
+
+theorem reservedChannels_all (entries : List Entry) (pcm : Int) (hpcm : pcm ≠ 0)
+    (hall : ∀ e ∈ entries, ∃ m, e.m = some m ∧ m ≠ 0) :
+    reservedChannels entries pcm = .ok (some (sumInt (entries.map (fun e => floorDiv (e.m.getD 0) pcm)))) := by
+  unfold reservedChannels
+  simp only [hpcm, if_false]
+  split
+  · rfl
+  · next hn =>
+    exfalso; apply hn
+    rw [List.all_eq_true]
+    intro e he
+    obtain ⟨m, hm, hm0⟩ := hall e he
+    rw [hm]; simpa using hm0
+
+/-- **reserved_check.** When every M of the request is fixed (and non-zero) the request is blocked with
+    `NOT_ENOUGH_RESERVED_SPECTRUM` exactly when the channels that fit into the reserved widths, `Σ M // m₁` with `m₁` the
+    slots of one channel, are fewer than the channels needed for the bandwidth — independently of the spectrum state. -/
+theorem reserved_check (pol : Policy) (s : List Oms) (r : Request) (nbWl requiredM x pcm : Int)
+    (hpb : r.preBlocked = false)
+    (h1 : slotsVsBandwidth r.pathBandwidth r.spacing r.bitRate = .ok (nbWl, requiredM))
+    (h2 : slotsVsBandwidth r.bitRate r.spacing r.bitRate = .ok (x, pcm)) (hpcm : pcm ≠ 0)
+    (hall : ∀ e ∈ r.entries, ∃ m, e.m = some m ∧ m ≠ 0) :
+    (∃ s', step pol s r = .ok (s', Outcome.blocked "NOT_ENOUGH_RESERVED_SPECTRUM")) ↔
+      sumInt (r.entries.map (fun e => floorDiv (e.m.getD 0) pcm)) < nbWl := by
+  have hrs : reservedShort r.entries pcm nbWl =
+      .ok (decide (nbWl > sumInt (r.entries.map (fun e => floorDiv (e.m.getD 0) pcm)))) := by
+    simp only [reservedShort, bind, Except.bind, reservedChannels_all r.entries pcm hpcm hall]
+    rfl
+  unfold step
+  simp only [hpb, Bool.false_eq_true, if_false, bind, Except.bind, h1, h2, hrs]
+  by_cases hlt : nbWl > sumInt (r.entries.map (fun e => floorDiv (e.m.getD 0) pcm))
+  · simp only [decide_eq_true hlt, if_true]
+    constructor
+    · intro _; exact hlt
+    · intro _; exact ⟨s, rfl⟩
+  · simp only [decide_eq_false hlt, Bool.false_eq_true, if_false]
+    constructor
+    · rintro ⟨s', hh⟩
+      exfalso
+      cases hc : computeNM requiredM r.entries r.pathOms s pcm pol with
+      | error e => rw [hc] at hh; cases hh
+      | ok sr =>
+        rw [hc] at hh
+        simp only at hh
+        split at hh
+        · simp only [pure, Except.pure, Except.ok.injEq, Prod.mk.injEq, Outcome.blocked.injEq] at hh
+          exact absurd hh.2 (by decide)
+        · cases ha : applyPath sr.1 r.id nbWl r.pathOms s with
+          | error e => rw [ha] at hh; cases hh
+          | ok s1 =>
+            rw [ha] at hh
+            simp only [pure, Except.pure, Except.ok.injEq, Prod.mk.injEq] at hh
+            cases hh.2
+    · intro hh; exact absurd hh hlt
+
+
+/-! ### the hypotheses are what `build_oms_list` produces (and are satisfiable) -/
+
+theorem tdiv_grid (a : Int) : a.tdiv 6250000000 = if 0 ≤ a then a / 6250000000 else -((-a) / 6250000000) := by
+  split
+  · next h => exact Int.tdiv_eq_ediv_of_nonneg h
+  · next h =>
+    have : a = -(-a) := by omega
+    rw [this, Int.neg_tdiv, Int.tdiv_eq_ediv_of_nonneg (by omega)]
+    simp
+
+/-- A map built by `OMS.update_spectrum` / `Bitmap.__init__` on the default grid is well formed; when the guard band is
+    a non-negative multiple of the grid step (the shipped flow uses 25 GHz = 4 steps) the guard-band limits recomputed
+    by `aggregate_oms_bitmap` are never looser than the recorded `freq_index_min/max`. -/
+theorem create_wf (fMin fMax k : Int) (hk : 0 ≤ k) (cells : Option (List Cell)) (b : Bitmap)
+    (h : Bitmap.create fMin fMax defaultGrid (k * defaultGrid) cells = .ok b) :
+    b.WF ∧ b.idxMin ≤ b.aggIdxMin ∧ b.aggIdxMax ≤ b.idxMax ∧ b.nMin = frequencyToN fMin ∧ b.nMax = frequencyToN fMax ∧
+      b.guardband = k * defaultGrid := by
+  unfold Bitmap.create at h
+  have hg : ¬ defaultGrid = 0 := by decide
+  rw [if_neg hg] at h
+  have key : ∀ c : List Cell, c.length = (intRange (frequencyToN fMin) (frequencyToN fMax + 1)).length →
+      b = { nMin := frequencyToN fMin, nMax := frequencyToN fMax,
+            idxMin := frequencyToN (fMin + k * defaultGrid), idxMax := frequencyToN (fMax - k * defaultGrid),
+            freqIndex := intRange (frequencyToN fMin) (frequencyToN fMax + 1), cells := c,
+            guardband := k * defaultGrid } →
+      b.WF ∧ b.idxMin ≤ b.aggIdxMin ∧ b.aggIdxMax ≤ b.idxMax ∧ b.nMin = frequencyToN fMin ∧ b.nMax = frequencyToN fMax ∧
+        b.guardband = k * defaultGrid := by
+    intro c hc hb
+    subst hb
+    refine ⟨⟨rfl, hc⟩, ?_, ?_, rfl, rfl, rfl⟩
+    · simp only [Bitmap.aggIdxMin, frequencyToN, nToFrequency, truncDiv, anchorHz, defaultGrid, tdiv_grid]
+      split <;> split <;> split <;> omega
+    · simp only [Bitmap.aggIdxMax, frequencyToN, nToFrequency, truncDiv, anchorHz, defaultGrid, tdiv_grid]
+      split <;> split <;> split <;> omega
+  cases cells with
+  | none =>
+    simp only [pure, Except.pure, Except.ok.injEq] at h
+    refine key _ ?_ h.symm
+    rw [length_rep, length_intRange]; congr 1; omega
+  | some c =>
+    simp only at h
+    split at h
+    · next hc =>
+      simp only [pure, Except.pure, Except.ok.injEq] at h
+      exact key c hc h.symm
+    · cases h
+
+/-- every OMS list whose maps were all created over one frequency range with one guard band (a multiple of the grid
+    step) – which is what `build_oms_list` does – satisfies the hypothesis `StateWF` of the theorems above -/
+theorem stateWF_of_create (fMin fMax k : Int) (hk : 0 ≤ k) (s : List Oms)
+    (h : ∀ o ∈ s, ∃ cells, Bitmap.create fMin fMax defaultGrid (k * defaultGrid) cells = .ok o.bm) : StateWF s := by
+  refine ⟨fun o ho => ?_, fun o ho o' ho' => ?_, fun o ho => ?_⟩
+  · obtain ⟨c, hc⟩ := h o ho
+    exact (create_wf fMin fMax k hk c _ hc).1
+  · obtain ⟨c, hc⟩ := h o ho
+    obtain ⟨c', hc'⟩ := h o' ho'
+    obtain ⟨_, _, _, a1, a2, a3⟩ := create_wf fMin fMax k hk c _ hc
+    obtain ⟨_, _, _, b1, b2, b3⟩ := create_wf fMin fMax k hk c' _ hc'
+    exact ⟨by rw [a1, b1], by rw [a2, b2], by rw [a3, b3]⟩
+  · obtain ⟨c, hc⟩ := h o ho
+    obtain ⟨_, g1, g2, _⟩ := create_wf fMin fMax k hk c _ hc
+    exact ⟨g1, g2⟩
+
+/-- after any history on such an OMS list the state is again well formed (so the theorems apply to every prefix) -/
+theorem run_preserves_wf (pol : Policy) (rs : List Request) (s s' : List Oms) (os : List Outcome) (hs : StateWF s)
+    (hnd : ∀ r ∈ rs, r.pathOms.Nodup) (h : run pol s rs = .ok (s', os)) : StateWF s' :=
+  (run_spec pol rs s s' os hs hnd h).1
+
+section NonVacuity
+/-- a 41-slot map (n = −20 … 20, guard band 25 GHz) as `Bitmap.__init__` builds it -/
+def exBitmap : Bitmap :=
+  { nMin := -20, nMax := 20, idxMin := -16, idxMax := 16, freqIndex := intRange (-20) 21,
+    cells := List.replicate 41 Cell.free, guardband := 25000000000 }
+def exState : List Oms := [⟨exBitmap, 0, []⟩, ⟨exBitmap, 0, []⟩, ⟨exBitmap, 0, []⟩]
+def exReq (id : String) (entries : List Entry) (path : List Nat) : Request :=
+  { id := id, preBlocked := false, entries := entries, pathBandwidth := 100000000000, bitRate := 100000000000,
+    spacing := 50000000000, pathOms := path }
+
+example : (Bitmap.create (anchorHz - 20 * defaultGrid) (anchorHz + 20 * defaultGrid) defaultGrid (4 * defaultGrid) none).toOption
+    = some exBitmap := by decide
+
+/-- the hypothesis `StateWF` holds for a concrete non-trivial state -/
+example : StateWF exState := by
+  apply stateWF_of_create (anchorHz - 20 * defaultGrid) (anchorHz + 20 * defaultGrid) 4 (by decide)
+  intro o ho
+  refine ⟨none, ?_⟩
+  simp only [exState, List.mem_cons, List.not_mem_nil, or_false] at ho
+  rcases ho with rfl | rfl | rfl <;> decide
+
+/-- an accepted request (free N and M, two-OMS route): first fit puts it at N = −12 -/
+example : (step .firstFit exState (exReq "a" [⟨none, none⟩] [0, 1])).toOption.map (·.2) =
+    some (Outcome.accepted [(-12, 4)]) := by decide
+
+/-- a history with an accepted, a blocked (fixed slot already taken on the shared OMS 1) and a multi-slot request:
+    the grant list is not empty and two grants share OMS 1 -/
+example : (run .firstFit exState [exReq "a" [⟨none, none⟩] [0, 1], exReq "b" [⟨some (-12), some 4⟩] [1, 2],
+                                 exReq "c" [⟨none, some 4⟩, ⟨some 8, some 4⟩] [1, 2]]).toOption.map (·.2) =
+    some [Outcome.accepted [(-12, 4)], Outcome.blocked "NO_SPECTRUM", Outcome.accepted [(-4, 4), (8, 4)]] := by decide
+
+/-- the reserved-spectrum check fires: M = 2 carries no 50 GHz channel -/
+example : (step .firstFit exState (exReq "d" [⟨some 0, some 2⟩] [0])).toOption.map (·.2) =
+    some (Outcome.blocked "NOT_ENOUGH_RESERVED_SPECTRUM") := by decide
+end NonVacuity
+
+end Gnpy.Slots
